@@ -57,7 +57,10 @@ fn lib_point(pt: &(BigUint, BigUint), p: &mut Prng, rerandomise: bool) -> Point 
 
 fn history(ctx: &mut Ctx, c: &Case, p: &mut Prng) {
     let cur = r2::curve();
-    let (Some(ska), Some(skb)) = (lib_sk(&c.da), lib_sk(&c.db)) else {
+    // key objects by provenance (constructor / gen_keypair / Jacobian public point)
+    let how = (c.klen as u64 + c.subset as u64) % 3;
+    ctx.class(provenance(how));
+    let (Some((_, ska)), Some((_, skb))) = (lib_keys(&c.da, how, p), lib_keys(&c.db, how + 1, p)) else {
         ctx.violation("Sm2PrivateKey::new:d-in-[1,n-2]:not-ok", wit(c));
         return;
     };
@@ -217,7 +220,7 @@ pub fn run(ctx: &mut Ctx) {
     for (n, ok) in r2::selftest() {
         ctx.selftest(&n, ok);
     }
-    ctx.require(&["annex_kat", "honest_keys_equal", "step2_rejects_invalid_RA", "step3_rejects", "step4_rejects", "klen=1", "klen=16", "klen=200", "kind=OffCurve", "kind=Negated", "kind=OtherPoint", "kind=BitFlipHash", "id_non_ascii_utf8", "degenerate_dA_shared_point_infinity_at_B", "degenerate_dB_shared_point_infinity_at_A"]);
+    ctx.require(&["annex_kat", "honest_keys_equal", "step2_rejects_invalid_RA", "step3_rejects", "step4_rejects", "klen=1", "klen=16", "klen=200", "kind=OffCurve", "kind=Negated", "kind=OtherPoint", "kind=BitFlipHash", "id_non_ascii_utf8", "key_from_gen_keypair", "key_with_jacobian_public_point", "degenerate_dA_shared_point_infinity_at_B", "degenerate_dB_shared_point_infinity_at_A"]);
     for s in 0..16 {
         ctx.required.push(format!("subset={:04b}", s));
     }
